@@ -8,7 +8,7 @@
     [vm_compute] for the extraction self-check.  All values are integers ([Z]):
     [-1] = None, [-2] = the call panicked, booleans 0/1. *)
 From Verif Require Import Base.Prelude Base.Enc Spec.ShortMsgObs Model.ShortMsg Model.PerChannel Model.Factory Model.CC14
-  Model.Nrpn Model.Polling Spec.Canon Spec.MidiTable Spec.ScannerSpec Spec.CC14Spec Spec.NrpnSpec Spec.PollMonitor Spec.ConstSpec
+  Model.Nrpn Model.Polling Spec.Canon Spec.MidiTable Spec.ScannerSpec Spec.CC14Spec Spec.NrpnSpec Spec.PollMonitor Spec.PollGrammar Spec.ConstSpec
   Generated.CtrlConsts Generated.NewtypeTables Generated.SerdeShapes Base.Cfg Model.Newtypes
   Model.Serde.
 Open Scope Z_scope.
@@ -613,6 +613,42 @@ Definition check_132 (timeout : N) (l : list Z) (obs : list Z) : verdict :=
          listZ_eqb others_a others_b)
         model.
 
+(** * C12: documented sequence forms (tag 120): [prior] arbitrary traffic, then a
+    grammar-conforming stream; the decider is the grammar transducer of Spec/PollGrammar.v *)
+Definition is_flush (o : out2) : bool :=
+  match o with
+  | (None, None) => true
+  | (Some r, None) => negb (pn_is_14_bit r) && datatype_eqb (pn_data_type r) DataEntry
+  | _ => false
+  end.
+
+Definition out2_eqb (a b : out2) : bool := listZ_eqb (enc_out2 a) (enc_out2 b).
+
+Fixpoint grammar_ok (exp : list (out2 * bool)) (outs : list out2) : bool :=
+  match exp, outs with
+  | [], [] => true
+  | (e, first) :: exp', o :: outs' =>
+      (if first then out2_eqb o e || is_flush o else out2_eqb o e) && grammar_ok exp' outs'
+  | _, _ => false
+  end.
+
+Definition check_120 (timeout : N) (prior sentence : list sop) (obs : list Z) : verdict :=
+  match poll_run 0 (poll_new_scanner timeout) prior with
+  | Ok (now, s, _) =>
+      let model := match poll_run now s sentence with
+                   | Ok (_, _, outs) => flat_map enc_out2 outs
+                   | Panic => [ZPANIC]
+                   end in
+      match g_run timeout now gstates_init sentence with
+      | Some exp =>
+          mkV (listZ_eqb obs model)
+              (Nat.eqb (length obs) (12 * length sentence) && grammar_ok exp (dec_out2s obs))
+              model
+      | None => bad_record   (* the generator produced a stream outside the documented forms *)
+      end
+  | Panic => bad_record
+  end.
+
 (** * scanner-level properties C15 / C16 / C17 (kind 0: 14-bit CC, 1: (N)RPN, 2: polling) *)
 Definition width (kind : Z) : nat := if Z.eqb kind 0 then 3%nat else if Z.eqb kind 1 then 6%nat else 12%nat.
 
@@ -1045,6 +1081,9 @@ Definition check (tag : Z) (inp obs : list Z) : verdict :=
         (model_101 (nz ch) (Z.eqb reg 1) (nz num) (nz n) kind (dec_pnops prior) vs)
         (spec_101 (nz ch) (Z.eqb reg 1) (nz num) (nz n) vs)
   | 110, h => verdict_of obs (model_110 (dec_pnops h)) (spec_110 (dec_pnops h))
+  | 120, timeout :: nprior :: rest =>
+      let '(prior, sentence) := take_ops (Z.to_nat nprior) rest in
+      check_120 (nz timeout) (dec_sops prior) (dec_sops sentence) obs
   | 130, timeout :: h => check_130 (nz timeout) (dec_sops h) obs
   | 131, timeout :: n :: rest =>
       let '(a, b) := take_ops (Z.to_nat n) rest in
